@@ -178,7 +178,7 @@ def render(spec: Spec, vals: Optional[dict] = None, defaults: Optional[dict] = N
             if r.tz:
                 out.append(f'{ind}  timezone "{r.tz}"')
             if r.shift:
-                out.append(f"{ind}  shifts {r.shift}")
+                out.append(f"{ind}  workinghours {r.shift}")
             for ln in r.hours:
                 out.append(f"{ind}  workinghours {ln}")
             for ln in r.leaves:
